@@ -130,20 +130,23 @@ func (r *reference) resolveRef(cfg *Config, opts *options) (value, error) {
 	opts.eval.activated(key)
 
 	var err, cyclic Error
+	asked := false
 
 	for {
 		var v value
 		cfg = cfgRoot(cfg)
-		if cfg == nil {
-			return nil, ErrMissing
-		}
 
-		v, err = r.Path.GetValue(cfg, opts)
-		if err == nil && v != nil {
-			return v, nil
-		}
-		if err != nil && cyclic == nil && causedByCycle(err) {
-			cyclic = err
+		// a nil configuration (Env(nil), e.g. an optional environment that was
+		// not loaded) holds no settings: it is skipped like an empty one
+		if cfg != nil {
+			asked = true
+			v, err = r.Path.GetValue(cfg, opts)
+			if err == nil && v != nil {
+				return v, nil
+			}
+			if err != nil && cyclic == nil && causedByCycle(err) {
+				cyclic = err
+			}
 		}
 		// not found in cfg, try the next environment
 
@@ -159,6 +162,9 @@ func (r *reference) resolveRef(cfg *Config, opts *options) (value, error) {
 		// a reference re-entered on the way is no missing setting: an
 		// environment that does not know the name either changes nothing
 		return nil, cyclic
+	}
+	if !asked {
+		return nil, ErrMissing
 	}
 	return nil, err
 }
